@@ -200,8 +200,11 @@ def wrap_hygiene(p, kind, body):
     For forwarding mode: the whole token list is passed through `__fwd!`."""
     invocation = "%s! { %s }" % (kind, body)
     if getattr(p, "_frag", None):
-        params = ", ".join("$e%d:expr" % i for i in range(len(p._frag)))
-        return "{ macro_rules! __fe { (%s) => { %s } } __fe!(%s) }" % (params, invocation, ", ".join(p._frag))
+        # alternately as `$e:expr` (a None-delimited group for the proc macro) and as `$e:tt` (a parenthesized group whose
+        # tokens keep the caller's hygiene context while the invocation itself is written inside the macro_rules body)
+        params = ", ".join("$e%d:%s" % (i, "tt" if i % 2 else "expr") for i in range(len(p._frag)))
+        args = ", ".join(("(%s)" % f) if i % 2 else f for i, f in enumerate(p._frag))
+        return "{ macro_rules! __fe { (%s) => { %s } } __fe!(%s) }" % (params, invocation, args)
     named = [i for i, b in enumerate(p.branches) if b["named"]]
     if not named or p.id % 4 in (0, 1):
         return invocation
@@ -317,7 +320,7 @@ def render_prog(p, want_async=True, skip=()):
             run = "Run::Async(p%d::k_%s)" % (p.id, kind)
         else:
             if loop_mode(p, kind):
-                lines.append("    pub fn k_%s() -> Out { for __lp in 0..3u8 { let __o = norm(%s); loop_iteration(__lp); return __o; } unreachable!() }" % (kind, wrap_hygiene(p, kind, body)))
+                lines.append("    pub fn k_%s() -> Out { for __lp in 0..3u8 { let __o = norm(%s); loop_iteration(__lp, %d); return __o; } unreachable!() }" % (kind, wrap_hygiene(p, kind, body), 1 if p._nloop >= 1 else 0))
             else:
                 lines.append("    pub fn k_%s() -> Out { norm(%s) }" % (kind, wrap_hygiene(p, kind, body)))
             run = "Run::Sync(p%d::k_%s)" % (p.id, kind)
